@@ -26,7 +26,9 @@ SCHEDULE_MEASURE = "distinct (configuration, operation history) hashes"
 COMPONENTS = {
     "real": ["pce500/memory.py PCE500Memory.read_byte/write_byte/read_bytes/write_bytes/read_word/write_word/read_long/"
              "write_long + pce500/memory_bus.py", "sc62015/core/src/memory.rs MemoryImage::{load,store,overlays,mirror,"
-             "read-only ranges,memory card}"],
+             "read-only ranges,memory card}",
+             "sc62015/core/src/device.rs DeviceModel::configure_runtime + sc62015/core/src/pce500.rs ROM loaders (a share of the "
+             "Rust configurations installs the ROM image through them)"],
     "stub": ["no devices attached (LCD/keyboard windows are plain bus locations at this level; device windows are "
              "exercised through the machines in C15/C16)"],
 }
